@@ -14,7 +14,7 @@
    OK tags: nt, one tag per cut shape that occurs in the input, xtor-count tags of eta-expanded
    types, lifted / lift-unused-param, sem<k> = number of argument tuples compared semantically. *)
 From Coq Require Import List ZArith NArith String Bool.
-From SCC Require Import Base.Sexp Lang.SynUtil Lang.CoreSyn Lang.AxSyn Sem.AxSem Sem.AxCheck Sem.FsCheck Model.Shrink Model.RunBase.
+From SCC Require Import Base.Sexp Lang.SynUtil Lang.CoreSyn Lang.AxSyn Sem.AxSem Sem.AxCheck Sem.FsCheck Sem.FsFrag2 Model.Shrink Model.RunBase.
 From SCC Require Sem.CoreSem.
 Import ListNotations.
 Open Scope list_scope.
@@ -211,6 +211,17 @@ Definition why_not_wt (i : sexp) : string :=
   | _ => ""
   end.
 
+(* the fragments of the round-2 theorems (Sem/FsFrag2.v): proved-sem = C04_shrink_correct_fragment2 applies
+   to this input, proved-typing = C12_shrink_preserves_typing_fragment2 applies; otherwise the conjunct
+   that fails *)
+Definition frag2_tags (p : fsprog) : string :=
+  (if frag2_prog p && decls_ok p then " proved-sem" else " unproved-sem")
+  ++ (if frag2t_prog p then " proved-typing" else " unproved-typing")
+  ++ (if names_ok p then "" else " not-names_ok")
+  ++ (if main_int p then "" else " not-main_int")
+  ++ (if decls_ok p then "" else " not-decls_ok")
+  ++ (if gub p then "" else " not-gub").
+
 Definition join_tags (l : list string) : string := fold_left (fun acc t => acc ++ " " ++ t) l "".
 
 Definition shrink_case (i r : sexp) : verdict :=
@@ -267,6 +278,7 @@ Definition shrink_case (i r : sexp) : verdict :=
                                  ++ (if Nat.eqb nl 0 then "" else " lifted")
                                  ++ (if Nat.eqb (lifted_unused_params rp) 0 then "" else " lift-unused-param")
                                  ++ (if undeclared_field_types (ptypes rp) then " undeclared-field-type" else "")
+                                 ++ frag2_tags p
                                  ++ (match expect with L _ => " expected-stdout" | _ => "" end)
                                  ++ " sem" ++ n_to_string (N.of_nat nsem))
                           else
